@@ -10,19 +10,6 @@ open Webauthn Generated
 
 /-! ### every rejection is the library's structure / response exception -/
 
-/-- all errors of `x` satisfy `S` -/
-def ErrIn {α} (S : Err → Prop) (x : Except Err α) : Prop := ∀ e, x = .error e → S e
-
-theorem ErrIn_bind {α β} {S : Err → Prop} {x : Except Err α} {f : α → Except Err β}
-    (hx : ErrIn S x) (hf : ∀ a, ErrIn S (f a)) : ErrIn S (x >>= f) := by
-  intro e he
-  cases x with
-  | error e' => exact hx e (by simpa [bind, Except.bind] using he)
-  | ok a => exact hf a e (by simpa [bind, Except.bind] using he)
-
-theorem ErrIn_pure {α} {S : Err → Prop} (a : α) : ErrIn S (pure a : Except Err α) := by
-  intro e he; cases he
-
 def IsStructure (resp : LibExc) (e : Err) : Prop :=
   e.kind = .lib .InvalidJSONStructure ∨ e.kind = .lib resp
 
@@ -75,10 +62,10 @@ theorem rejects_reg (j : JVal) : ErrIn (IsStructure .InvalidRegistrationResponse
   cases j with
   | obj kvs =>
     simp only
-    refine ErrIn_bind (getStr_err _ _ _) fun _ => ErrIn_bind (getStr_err _ _ _) fun _ => ErrIn_bind (getObj_err _ _ _) fun _ =>
-      ErrIn_bind (getStr_err _ _ _) fun _ => ErrIn_bind (getStr_err _ _ _) fun _ => ErrIn_bind (credTypeOk_err _) fun _ =>
-      ErrIn_bind (attachmentOf_err _) fun _ => ErrIn_bind (decodeWrapped_err _ _) fun _ =>
-      ErrIn_bind (decodeWrapped_err _ _) fun _ => ErrIn_bind (decodeWrapped_err _ _) fun _ => ErrIn_pure _
+    refine ErrIn_bind (getStr_err _ _ _) fun _ _ => ErrIn_bind (getStr_err _ _ _) fun _ _ => ErrIn_bind (getObj_err _ _ _) fun _ _ =>
+      ErrIn_bind (getStr_err _ _ _) fun _ _ => ErrIn_bind (getStr_err _ _ _) fun _ _ => ErrIn_bind (credTypeOk_err _) fun _ _ =>
+      ErrIn_bind (attachmentOf_err _) fun _ _ => ErrIn_bind (decodeWrapped_err _ _) fun _ _ =>
+      ErrIn_bind (decodeWrapped_err _ _) fun _ _ => ErrIn_bind (decodeWrapped_err _ _) fun _ _ => ErrIn_pure _
   | null => intro e he; cases he; exact .inl rfl
   | bool _ => intro e he; cases he; exact .inl rfl
   | int _ => intro e he; cases he; exact .inl rfl
@@ -91,12 +78,12 @@ theorem rejects_auth (j : JVal) : ErrIn (IsStructure .InvalidAuthenticationRespo
   cases j with
   | obj kvs =>
     simp only
-    refine ErrIn_bind (getStr_err _ _ _) fun _ => ErrIn_bind (getStr_err _ _ _) fun _ => ErrIn_bind (getObj_err _ _ _) fun _ =>
-      ErrIn_bind (getStr_err _ _ _) fun _ => ErrIn_bind (getStr_err _ _ _) fun _ => ErrIn_bind (getStr_err _ _ _) fun _ =>
-      ErrIn_bind (credTypeOk_err _) fun _ => ErrIn_bind (userHandleOf_err _) fun _ =>
-      ErrIn_bind (attachmentOf_err _) fun _ => ErrIn_bind (decodeWrapped_err _ _) fun _ =>
-      ErrIn_bind (decodeWrapped_err _ _) fun _ => ErrIn_bind (decodeWrapped_err _ _) fun _ =>
-      ErrIn_bind (decodeWrapped_err _ _) fun _ => ErrIn_pure _
+    refine ErrIn_bind (getStr_err _ _ _) fun _ _ => ErrIn_bind (getStr_err _ _ _) fun _ _ => ErrIn_bind (getObj_err _ _ _) fun _ _ =>
+      ErrIn_bind (getStr_err _ _ _) fun _ _ => ErrIn_bind (getStr_err _ _ _) fun _ _ => ErrIn_bind (getStr_err _ _ _) fun _ _ =>
+      ErrIn_bind (credTypeOk_err _) fun _ _ => ErrIn_bind (userHandleOf_err _) fun _ _ =>
+      ErrIn_bind (attachmentOf_err _) fun _ _ => ErrIn_bind (decodeWrapped_err _ _) fun _ _ =>
+      ErrIn_bind (decodeWrapped_err _ _) fun _ _ => ErrIn_bind (decodeWrapped_err _ _) fun _ _ =>
+      ErrIn_bind (decodeWrapped_err _ _) fun _ _ => ErrIn_pure _
   | null => intro e he; cases he; exact .inl rfl
   | bool _ => intro e he; cases he; exact .inl rfl
   | int _ => intro e he; cases he; exact .inl rfl
